@@ -47,6 +47,9 @@ def expected_pieces(text):
     return pieces, spans
 
 
+TIFA_COMPARED = [0]      # located TIFA issues compared so far: a selection that is always empty checks nothing
+
+
 def check_file(chunks, independent, extra_calls, eol="\n"):
     from pedal.source.sections import separate_into_sections, next_section, stop_sections
     from pedal.source import verify
@@ -155,6 +158,7 @@ def check_file(chunks, independent, extra_calls, eol="\n"):
                 got = sorted((f.label, f.location.line) for f in (report3.feedback + report3.ignored_feedback)[n0:]
                              if type(f).__module__.startswith('pedal.tifa') and getattr(f, 'location', None) is not None
                              and getattr(f.location, 'line', None) is not None)
+                TIFA_COMPARED[0] += len(want)
                 if got != want:
                     fails.append(('tifa_line', 'TIFA issues of section %d at %r; the chunk analysed alone, shifted by the %d '
                                   'lines before it, gives %r' % (k, got, off, want)))
@@ -208,6 +212,45 @@ def runtime_lines():
         if got != [top_line]:
             fails.append(('runtime_line', 'error at the top level of a section under run(): located at %r, whole-file line '
                           'is %d' % (got, top_line)))
+    # a section that does not parse, executed without verify() first: the syntax error is located at its whole-file line
+    text = 'a = 0\n##### Part 1\nb = 1\nc = 2\nsyntax error\n'
+    report = fresh(text)
+    separate_into_sections(independent=True, report=report)
+    next_section(report=report)
+    sb = Sandbox(report=report)
+    sb.run()
+    n += 1
+    got = [f.location.line for f in report.feedback if f.category == 'runtime' and f.location is not None]
+    if got != [5]:
+        fails.append(('runtime_line', 'syntax error met by run() in a section: located at %r, whole-file line is 5' % (got,)))
+    # an error that surfaces inside a library the student called is located at the student's line of the whole file
+    for text, line in (('a = 0\n##### Part 1\nimport json\nx = 1\njson.loads("{bad")\n', 5),
+                       ('import random\n##### Part 1\nimport random\ndef pick():\n    return random.choice([])\n\npick()\n', 5)):
+        report = fresh(text)
+        separate_into_sections(independent=True, report=report)
+        next_section(report=report)
+        sb = Sandbox(report=report)
+        sb.run()
+        n += 1
+        got = [f.location.line for f in report.feedback if f.category == 'runtime' and f.location is not None]
+        if got != [line]:
+            fails.append(('runtime_line', 'error raised inside a library function called from a section: located at %r, the '
+                          'innermost line of the student\'s file is %d' % (got, line)))
+    # a function defined in an earlier independent section and called from a later one (the sandbox keeps its data)
+    text = 'a = 0\n##### Part 1\ndef f():\n    return 1 / 0\nprint("A")\n##### Part 2\nx = 1\ny = 2\nf()\n'
+    report = fresh(text)
+    separate_into_sections(independent=True, report=report)
+    next_section(report=report)
+    sb = Sandbox(report=report)
+    sb.run()
+    next_section(report=report)
+    before = len(report.feedback)
+    sb.run()
+    n += 1
+    got = [f.location.line for f in report.feedback[before:] if f.category == 'runtime' and f.location is not None]
+    if got != [4]:
+        fails.append(('runtime_line_earlier_section', 'error inside a function that an earlier section defined, called from the '
+                      'next section: located at %r, whole-file line is 4' % (got,)))
     return fails, n
 
 
@@ -241,6 +284,9 @@ def bounded(arg):
         for what, detail in check_file(chunks, True, 1, eol="\r\n"):
             failures.append({'id': what, 'canon': what + ' (CRLF file)', 'detail': detail,
                              'file': build(chunks).replace("\n", "\r\n"), 'independent': True})
+    if TIFA_COMPARED[0] == 0:
+        failures.append({'id': 'harness', 'canon': 'harness', 'detail': 'no located TIFA issue was compared in any layout: the '
+                         'TIFA-line clause selected nothing'})
     try:
         rfails, rn = runtime_lines()
     except Exception as e:
@@ -252,7 +298,7 @@ def bounded(arg):
     return {'name': 'B-sections', 'bound': '8 run-time errors (top level under run(), student function under call()) in 4 sectioned files; %d file layouts of 0-%d marker lines over %d chunk texts (incl. empty, syntax error, '
             'no trailing newline), independent and cumulative, 1-2 calls past the end; every third layout again with CRLF line ends' % (len(layouts), 2 if quick else 3, len(CHUNKS)),
             'evaluations': evaluations, 'distinct_nontrivial': len(distinct),
-            'rule': 'distinct = (number of chunks, mode, calls past the end, chunk texts)', 'samples': samples,
+            'rule': 'distinct = (number of chunks, mode, calls past the end, chunk texts); %d located TIFA issues compared' % TIFA_COMPARED[0], 'samples': samples,
             'failures': failures}
 
 
